@@ -21,6 +21,14 @@ def fam_xfer(seed, n):
 def fam_xfer_clean(seed, n):
     return [scen.random_transfer(seed, i, fam="xfer_clean", lossy=False) for i in range(n)]
 
+@family("peer_send")
+def fam_peer_send(seed, n):
+    return [scen.peer_send(seed, i) for i in range(n)]
+
+@family("peer_recv")
+def fam_peer_recv(seed, n):
+    return [scen.peer_recv(seed, i) for i in range(n)]
+
 # ------------------------------------------------------------------------------------------
 def sample_of(script):
     c = script["cfg"]
@@ -39,7 +47,7 @@ def soak(fam, n, seed):
         for x in v["viol"]:
             ri = core.run_of_line(v["trace"], x["line"])
             bad += 1
-            print("VIOL", x["rule"], x.get("ctx", ""), "line", x["line"], v["trace"], "script", sc[ri]["cfg"]["name"] if ri < len(sc) else "?")
+            print("VIOL", x["rule"], x.get("ctx", "") or "-", "line", x["line"], v["trace"], "script", sc[ri]["cfg"]["name"] if ri < len(sc) else "?")
             print("     ", core.trace_line(v["trace"], x["line"])[:400])
     print(json.dumps(cov, indent=0))
     print("lines", sum(v["lines"] for v, _ in res), "wall", max(v["wall_s"] for v, _ in res))
